@@ -616,6 +616,10 @@ class RecurrencePlot(Cached):
                                                         recurrence_rate)
         recurrence = np.zeros((n_time, n_time), dtype="int8")
         recurrence[distance < threshold] = 1
+        if self.missing_values:
+            #  Write missing value lines and rows to recurrence matrix
+            recurrence[self.missing_value_indices, :] = 0
+            recurrence[:, self.missing_value_indices] = 0
         self.R = recurrence
 
     def set_fixed_local_recurrence_rate(self, local_recurrence_rate):
@@ -645,6 +649,10 @@ class RecurrencePlot(Cached):
                 distance[i, :], local_recurrence_rate)
             #  Thresholding the distance matrix for column i
             recurrence[i, distance[i, :] < local_threshold] = 1
+        if self.missing_values:
+            #  Write missing value lines and rows to recurrence matrix
+            recurrence[self.missing_value_indices, :] = 0
+            recurrence[:, self.missing_value_indices] = 0
         self.R = recurrence
 
     def set_adaptive_neighborhood_size(self, adaptive_neighborhood_size,
